@@ -144,7 +144,7 @@ def main():
 
 # ---- rules added from the second round of seeded changes
 m("C01", "C01-threading-reads-patched-label", "R01-threading:patchCode:label-lookup#1:only-unpatched", ("compile.go", "\t\t\t\tif at < pc {\n\t\t\t\t\t// instructions before pc are already patched: sBx is a distance, no longer a label\n\t\t\t\t\td = at + opGetArgSbx(jmp) - pc\n\t\t\t\t} else {\n\t\t\t\t\td = context.GetLabelPc(opGetArgSbx(jmp)) - pc\n\t\t\t\t}", "\t\t\t\t_ = at\n\t\t\t\td = context.GetLabelPc(opGetArgSbx(jmp)) - pc"))
-m("C08", "C08-threading-no-hop-bound", "R08-terminate:patchCode:loop#1", ("compile.go", "opGetOpCode(jmp) == OP_JMP && count < 5;", "opGetOpCode(jmp) == OP_JMP && (count == 0 || distance != 0);"))
+m("C08", "C08-threading-no-hop-bound", "R08-terminate:patchCode:loop#", ("compile.go", "opGetOpCode(jmp) == OP_JMP && count < 5;", "opGetOpCode(jmp) == OP_JMP && (count == 0 || distance != 0);"))
 m("C08", "C08-concat-pop-loop-no-step", "R08-terminate:compileStringConcatOpExpr:loop#1", ("compile.go", "for pc := code.LastPC(); pc != 0 && opGetOpCode(code.At(pc)) == OP_CONCAT; pc-- {\n\t\tcode.Pop()", "for pc := code.LastPC(); pc != 0 && opGetOpCode(code.At(pc)) == OP_CONCAT; pc = code.LastPC() {\n\t\tcode.Pop()"))
 m("C05", "C05-where-no-pc-guard", "R17-where:(*LState).where:pc-guard", ("state.go", "\t\tif cf.Pc > 0 {\n\t\t\tline = fmt.Sprintf(\"%v:\", proto.DbgSourcePositions[cf.Pc-1])\n\t\t} else {", "\t\tif cf.Pc != 0 || true {\n\t\t\tline = fmt.Sprintf(\"%v:\", proto.DbgSourcePositions[cf.Pc-1])\n\t\t} else {"))
 m("C04", "C04-objlen-len-only-for-tables", "R04-events:(*LState).ObjLen:__len:any-operand-type", ("state.go", "\top := ls.metaOp1(v1, \"__len\")\n\tif op.Type() == LTFunction {", "\top := LValue(LNil)\n\tif v1.Type() == LTTable {\n\t\top = ls.metaOp1(v1, \"__len\")\n\t}\n\tif op.Type() == LTFunction {"))
@@ -327,5 +327,8 @@ for _p in ("C11", "C12"):
     m(_p, _p + "-newthread-does-not-count-the-child", "R11-threadctx:NewThread:creator-recorded-and-counted", ("state.go", "\t\tthread.ctxOwner = ls\n\t\tls.ctxChildren++\n", "\t\tthread.ctxOwner = ls\n"))
 m("C11", "C11-context-from-what-the-creators-was-derived-from", "R11-threadctx:NewThread:context-derived-from-the-creators-own", ("state.go", "\t\tthread.ctx, f = context.WithCancel(ls.ctx)\n", "\t\tbase := ls.ctx\n\t\tif ls.ctxOwner != nil && ls.ctxOwner.ctx != nil {\n\t\t\tbase = ls.ctxOwner.ctx\n\t\t}\n\t\tthread.ctx, f = context.WithCancel(base)\n"))
 m("C12", "C12-deep-nested-calls-unbounded", "R12-full:callR:nested-call-depth-bounded", ("state.go", "\tif ls.stack.Sp() >= maxNestedCallDepth {\n\t\tls.RaiseError(\"C stack overflow\")\n\t}\n", ""))
+
+m("C20", "C20-preload-through-the-global", "R20-order:loLoaderPreload:package-table-not-through-the-global", ("loadlib.go", "\tpreload := L.GetField(packageTable(L), \"preload\")", "\tpreload := L.GetField(L.GetField(L.Get(EnvironIndex), \"package\"), \"preload\")"))
+m("C13", "C13-loop-marker-shared-again", "R13-globals:escape", ("baselib.go", "\tloopdetection := L.G.loopDetection\n", "\tloopdetection := sharedLoopMarker\n"), ("baselib.go", "func loRequire(L *LState) int {", "var sharedLoopMarker = &LUserData{}\n\nfunc loRequire(L *LState) int {"))
 if __name__ == "__main__":
     main()
